@@ -647,6 +647,51 @@ def unit_malformed(ctx, n):
                           broken="correspondence unwrap (raise vs None)")
 
 
+def unit_nontrainable_subclass(ctx):
+    """A leaf frozen with a SUBCLASS of NonTrainable (e.g. `class Pretrained(NonTrainable)` used as replace_fn) is a frozen leaf everywhere:
+    not counted / overwritten by get_ravelled_pytree_constructor, hence not parameterised by Coupling / MaskedAutoregressive conditioners, and
+    bit-identical after training.  (Seeded change C12g recognised frozen nodes by the class NAME.)"""
+    s = _setup()
+    jnp, eqx, W = s["jnp"], s["eqx"], s["wrappers"]
+    import jax.random as jr
+    from flowjax.bijections import Affine, Coupling, MaskedAutoregressive
+
+    class Pretrained(W.NonTrainable):
+        pass
+
+    u = ctx.unit("frozen-subclass", "leaves frozen with a subclass of NonTrainable: parameter count / constructor of get_ravelled_pytree_constructor, "
+                                    "Coupling and MaskedAutoregressive conditioner output sizes and transformer parameters (oracle only)")
+    loc0 = float(ctx.rng.normal(0.75, 0.2))
+    for cls_name, cls in (("NonTrainable", W.NonTrainable), ("subclass of NonTrainable", Pretrained)):
+        tr = eqx.tree_at(lambda a: a.loc, Affine(loc0, 1.5), replace_fn=cls)
+        ctor, n = s["ravel_ctor"](tr)
+        u.count(("ravel", cls_name), nontrivial=True, tag=cls_name)
+        errs = []
+        if n != 1:
+            errs.append(f"get_ravelled_pytree_constructor counts {n} parameters for Affine with a frozen loc (1 trainable scalar: the scale)")
+        else:
+            rebuilt = W.unwrap(ctor(jnp.asarray([0.3])))
+            if float(rebuilt.loc) != loc0:
+                errs.append(f"constructor(vec) overwrote the frozen loc: {float(rebuilt.loc)!r} instead of {loc0!r}")
+        for lname, mk in (("Coupling", lambda: Coupling(jr.PRNGKey(0), transformer=tr, untransformed_dim=1, dim=3, nn_width=4, nn_depth=1)),
+                          ("MaskedAutoregressive", lambda: MaskedAutoregressive(jr.PRNGKey(0), transformer=tr, dim=3, nn_width=4, nn_depth=1))):
+            u.count((lname, cls_name), nontrivial=True, tag=cls_name)
+            layer = mk()
+            x = jnp.asarray(ctx.rng.normal(0, 1, 3))
+            y = layer.transform(x)
+            # coordinate 0 of MAF / the untransformed block of Coupling aside, every transformed coordinate is scale_i * x_i + loc0 with the FROZEN loc:
+            # (y_i - loc0) / x_i must be the positive scale the conditioner produced, and with x_i -> 0 the image is exactly loc0
+            y0 = layer.transform(jnp.zeros(3))
+            idx = range(1, 3) if lname == "Coupling" else range(0, 3)
+            bad = [i for i in idx if abs(float(y0[i]) - loc0) > 1e-12]
+            if bad:
+                errs.append(f"{lname}: transform(0)[{bad[0]}] = {float(y0[bad[0]])!r}, the frozen loc is {loc0!r} (the conditioner parameterises the frozen leaf)")
+        if errs:
+            ctx.violation(sig=f"frozen-subclass:{'subclass' if cls is Pretrained else 'plain'}", what=f"leaf frozen with {cls_name}: " + "; ".join(errs),
+                          case={"kind": "frozen-subclass", "cls": cls_name, "loc": loc0}, found_input=True, unit=u.name, expected="frozen leaf excluded", observed="; ".join(errs)[:300],
+                          broken="oracle: frozen leaves are not parameterised by conditioners / C12_conditioner_excludes_frozen")
+
+
 # ---------------- partition: ravel constructor, non_trainable ----------------
 def unit_partition(ctx, specs):
     s = _setup()
@@ -1325,6 +1370,7 @@ def run(ctx):
     _guard(ctx, "training-oracle", unit_training, 12 if q else 130)
     _guard(ctx, "frozen-submodule", unit_frozen_submodule)
     _guard(ctx, "merge-keeps-marks", unit_merge_keeps_marks)
+    _guard(ctx, "frozen-subclass", unit_nontrainable_subclass)
     _guard(ctx, "vmapped-where-mixed-rank", unit_vmapped_where, 10 if q else 120)
     note_lambda_returning_wrapper(ctx)
     ctx.assumptions += [
